@@ -121,6 +121,15 @@ CHECKS = {
         note='Trailing bytes after a complete encoding are not asserted. Boundary amount forms (exponent, sign) only need to be exact when accepted. Zero-input transactions are decoded here but '
              'not used as session transactions (crash class handled under C15).',
         design='5/C13'),
+    'C14': dict(
+        technique='property-based testing (Hypothesis) of every tf-table entry against executable definitions: OpenSSL hashes, reference base58/bech32/secp256k1 codecs, big-integer arithmetic; round trips and single-character corruptions',
+        text='All 27 transforms are exercised: hashes on byte strings of boundary lengths (0,1,55,56,63,64,65,119,120,252,253,65535,65536) and on strings, in command, inline and opcode form; tagged hashes; '
+             'base58check and bech32/bech32m encode/decode round trips and single-character substitutions (accepted exactly when the reference accepts); compact-size prefix, reversal, length; add/sub with and '
+             'without a group over the full 256-bit range; Jacobi symbols against the textbook algorithm (cross-checked with Euler\'s criterion); P2PKH address <-> scriptPubKey; pubkey combination, scalar '
+             'multiplication, x-only conversion, taproot tweak and signature verification (DER, compact, Schnorr) against own secp256k1 arithmetic. The command form is the REPL command body (harness), sampled through the real REPL.',
+        note='Integer operands of add/sub/jacobi are little-endian byte strings (the tool\'s convention). Inline forms exist for 24 of 27 transforms. `reverse` on decimals is not asserted. '
+             'Three genuine defects were repaired by fix: commits.',
+        design='5/C14'),
     'C16': dict(
         technique='differential property-based testing (Hypothesis) of exec against the reference interpreter started from the observed pre-state',
         text='Generated (session, k steps, token list) cases: the harness performs the k steps, then Instance::eval on the tokens, then continues to the end. The reference interpreter '
